@@ -1,340 +1,499 @@
-"""C18 - exports are all-or-nothing and leave no debris.
+"""C18 - exports are all-or-nothing and leave no debris.  (structural: control-flow graph with exceptional edges + dataflow of paths)
 
-The four writers are interpreted (sa/rules/c17.py: model interpreter) over an in-memory file system with a model
-document (rtf_encode returns a fixed string or fails) and a model converter (writes `<stem>.<format>` into the output
-directory it is given and returns its path; or fails before / after producing output; or returns something that is not
-a path).  Besides those failures an exception is injected, run by run, at every call boundary of repository code.
-Observed per run:
+For each writer (write_rtf, write_docx, write_html, write_pdf) the file-system operations are recognised by role (open for
+writing, write_text/bytes, touch/unlink/rename, shutil.move/copy, os.replace ...; directory creation apart) and the
+*location* of the path each one acts on is derived by dataflow through locals, with-targets and path algebra (`a / b`,
+`.parent`, `.with_name`, `Path(x)`, `str(x)`, `os.path.join(a, ..)`): the requested target (the path parameter), a temporary
+directory (with-target / enter_context result of tempfile.TemporaryDirectory, mkdtemp ...), the converter's result.
 
-R18.1 write_rtf: a normal return leaves exactly rtf_encode()'s string at the target (missing parent directories
-      created); a raise leaves the target as it was.
-R18.2 no temporary file or directory survives a run, whether it returns or raises.
-R18.3 write_docx/html/pdf: a normal return leaves the converter's output (and the HTML resource folder) at the requested
-      path and nowhere else, the converter was given exactly rtf_encode()'s string; a raise leaves the target as it was
-      and no other file behind.
-R18.4 each writer asks the converter for its own format.
+R18.1 write_rtf: every operation on the target location is preceded on every path by the *completed* rtf_encode() call
+      (CFG with exceptional edges), the written value is that call's result unmodified, missing parent directories are created
+      with mkdir(parents=True) before the write.
+R18.2 every temporary resource is released on all exits: acquired as a with-item, through `<ExitStack in a with>.enter_context`,
+      or followed by a clean-up that lies on every path (normal and exceptional) from the acquisition to the function's exits;
+      a context-manager helper of the package must protect its yield by try/finally or a with-block.
+R18.3 converters: every operation on the target location is preceded on every path by the completed rtf_encode(), the completed
+      converter.convert(...) and, where the code tests the result's type, that test; what reaches the target derives from the
+      converter's result; the intermediate file and the converter's output directory lie in temporary directories and nothing
+      else is written outside them; the intermediate RTF is rtf_encode()'s result unmodified.
+R18.4 the format handed to the converter is the writer's own (docx / html / pdf).
 """
 from __future__ import annotations
 
+import ast
+
+from ..astmatch import alternatives, assignments
+from ..cfg import CFG, own_parts
+from ..pm import AnalysisError, dotted, unparse, walk_no_nested
 from ..report import Ctx
-from .c17 import FS, Bound, ClassVal, Func, Interp, NeedChoice, Obj, Unknown, Unsupported, _Model, is_artefact, interp_pm, cover, METHOD
 
-WRITERS = (("RTFDocument.write_docx", "docx"), ("RTFDocument.write_html", "html"), ("RTFDocument.write_pdf", "pdf"))
-ENCODED = "{\\rtf1\\ansi model document\n\\pard text\\par\n}"
-OLD = "PRE-EXISTING TARGET CONTENT\n"
-
-
-class _Lib:
-    """a model standing for a repository function: a call boundary at which faults are injected"""
-
-    def __init__(self, name, f):
-        self.name, self.f = name, f
-
-    def __call__(self, *a, **k):
-        return self.f(*a, **k)
-
-    def __repr__(self):
-        return f"<model {self.name}>"
+CONVERTERS = (("RTFDocument.write_docx", "docx"), ("RTFDocument.write_html", "html"), ("RTFDocument.write_pdf", "pdf"))
+TEMP_CTORS = {"TemporaryDirectory", "mkdtemp", "mkstemp", "NamedTemporaryFile", "TemporaryFile", "SpooledTemporaryFile"}
+AUTO_CLEAN = {"TemporaryDirectory", "NamedTemporaryFile", "TemporaryFile", "SpooledTemporaryFile"}      # clean up when used as context managers
+CLEANERS = {"rmtree", "cleanup", "unlink", "remove", "rmdir", "close"}
+WRITE_ATTRS = {"write_text", "write_bytes", "touch", "unlink", "rename", "replace", "rmdir", "symlink_to", "hardlink_to"}
+WRITE_FUNCS = {"shutil.move": 1, "shutil.copy": 1, "shutil.copy2": 1, "shutil.copyfile": 1, "shutil.copytree": 1, "shutil.rmtree": 0, "os.remove": 0, "os.rename": 1,
+               "os.replace": 1, "os.unlink": 0, "os.rmdir": 0}
+PATH_PASS = {"parent", "with_name", "with_suffix", "with_stem", "expanduser", "resolve", "absolute", "joinpath", "name", "stem", "as_posix", "parents"}
 
 
-class Converter(_Model):
-    """model of LibreOfficeConverter: convert() reads the input file, writes `<stem>.<format>` into output_dir"""
+class Flow:
+    """dataflow of path values inside one function"""
 
-    def __init__(self, run):
-        self.run = run
-        self.convert = _Lib("converter.convert", self._convert)
+    def __init__(self, pm, fi):
+        self.pm, self.fi, self.fn = pm, fi, fi.node
+        self.asg = assignments(self.fn)
+        self.withvars: dict[str, ast.AST] = {}
+        for w in walk_no_nested(self.fn):
+            if isinstance(w, (ast.With, ast.AsyncWith)):
+                for it in w.items:
+                    if isinstance(it.optional_vars, ast.Name):
+                        self.withvars[it.optional_vars.id] = it.context_expr
+        a = self.fn.args
+        self.params = [x.arg for x in list(a.posonlyargs) + list(a.args) + list(a.kwonlyargs)]
+        self.encode_calls = [c for c in walk_no_nested(self.fn) if isinstance(c, ast.Call) and dotted(c.func).split(".")[-1] == "rtf_encode"]
+        self.convert_calls = [c for c in walk_no_nested(self.fn) if isinstance(c, ast.Call) and isinstance(c.func, ast.Attribute) and c.func.attr == "convert"
+                              and any(k.arg in ("input_files", "output_dir", "format") for k in c.keywords)]
 
-    def _convert(self, input_files=None, output_dir=None, format="pdf", overwrite=False, **k):
-        run, fs = self.run, self.run.fs
-        if k:
-            raise Unsupported(f"converter.convert called with unknown arguments {sorted(k)}")
-        if isinstance(input_files, (list, tuple)):
-            raise Unsupported("converter.convert called with several input files")
-        if isinstance(format, Unknown) or isinstance(output_dir, Unknown) or isinstance(input_files, Unknown):
-            raise Unsupported("converter.convert called with unknown arguments")
-        src = fs.norm(input_files)
-        run.convert_calls.append({"format": format, "input": src, "input_content": fs.files.get(src), "output_dir": fs.norm(output_dir)})
-        if run.conv_mode == "raise-before":
-            run.it.throw("RuntimeError", "model converter failed before producing output")
-        if src not in fs.files:
-            run.it.throw("FileNotFoundError", f"converter input {src} does not exist")
-        out_dir = fs.norm(output_dir)
-        if out_dir not in fs.dirs:
-            fs.mkdir(out_dir, parents=True, exist_ok=True)
-        stem = src.rsplit("/", 1)[-1].rsplit(".", 1)[0]
-        out = f"{out_dir}/{stem}.{format}"
-        content = f"CONVERTED[{format}] of <<{fs.files[src]}>>"
-        fs.write_file(out, content, "create")
-        run.converted = (out, content)
-        if format == "html" and run.resources:
-            fs.mkdir(f"{out}_files", exist_ok=True)
-            fs.write_file(f"{out}_files/image1.png", "PNG", "create")
-        if run.conv_mode == "raise-after":
-            run.it.throw("RuntimeError", "model converter failed after producing output")
-        if run.conv_mode == "returns-list":
-            return [fs.Path(out)]
-        if run.conv_mode == "returns-none":
-            return None
-        if run.conv_mode == "returns-str":
+    def is_temp_ctor(self, e) -> str | None:
+        if isinstance(e, ast.Call):
+            last = dotted(e.func).split(".")[-1]
+            if last in TEMP_CTORS:
+                return last
+            if last == "enter_context" and e.args:
+                return self.is_temp_ctor(e.args[0])
+            if last == "gettempdir":
+                return "gettempdir"
+        return None
+
+    def values(self, name: str, seen) -> list[ast.AST]:
+        if name in seen:
+            return []
+        out = []
+        if name in self.withvars:
+            out.append(self.withvars[name])
+        for v in self.asg.get(name, []):
+            if isinstance(v, ast.Constant) and isinstance(v.value, str) and v.value.startswith("<"):
+                continue
+            out.append(v)
+        return out
+
+    def location(self, e: ast.AST, seen=frozenset(), depth: int = 0) -> set[str]:
+        """where the path denoted by e lies: subset of {'target', 'temp', 'converted', 'const', 'unknown'}"""
+        if depth > 10 or e is None:
+            return {"unknown"}
+        if isinstance(e, ast.Constant):
+            return {"const"} if isinstance(e.value, (str, bytes)) else {"unknown"}
+        if isinstance(e, ast.JoinedStr):
+            return {"const"}
+        if isinstance(e, ast.Name):
+            if e.id in self.params and e.id not in self.asg:
+                return {"target"} if e.id not in ("self", "converter", "cls") else {"unknown"}
+            vals = self.values(e.id, seen)
+            if not vals:
+                return {"target"} if e.id in self.params and e.id not in ("self", "converter") else {"unknown"}
+            out = set()
+            for v in vals:
+                out |= self.location(v, seen | {e.id}, depth + 1)
+            if e.id in self.params and e.id not in ("self", "converter"):
+                out.add("target")
             return out
-        return fs.Path(out)
+        if isinstance(e, ast.BinOp) and isinstance(e.op, ast.Div):
+            return self.location(e.left, seen, depth + 1)
+        if isinstance(e, ast.BinOp) and isinstance(e.op, ast.Add):
+            return self.location(e.left, seen, depth + 1)
+        if isinstance(e, ast.Attribute):
+            if e.attr in PATH_PASS or e.attr == "name":
+                return self.location(e.value, seen, depth + 1)
+            return {"unknown"}
+        if isinstance(e, ast.Subscript):
+            return self.location(e.value, seen, depth + 1)
+        if isinstance(e, ast.IfExp):
+            return self.location(e.body, seen, depth + 1) | self.location(e.orelse, seen, depth + 1)
+        if isinstance(e, ast.Call):
+            if self.is_temp_ctor(e):
+                return {"temp"}
+            if any(e is c for c in self.convert_calls):
+                return {"converted"}
+            d = dotted(e.func)
+            last = d.split(".")[-1]
+            if isinstance(e.func, ast.Attribute) and last in PATH_PASS:
+                return self.location(e.func.value, seen, depth + 1)
+            if last in ("Path", "PurePath", "str", "fspath", "abspath", "realpath", "expanduser", "normpath", "join", "cast") and e.args:
+                return self.location(e.args[-1] if last == "cast" else e.args[0], seen, depth + 1)
+            if last == "open" and isinstance(e.func, ast.Attribute):
+                return self.location(e.func.value, seen, depth + 1)
+            if last == "open" and e.args:
+                return self.location(e.args[0], seen, depth + 1)
+            return {"unknown"}
+        return {"unknown"}
+
+    def value_origin(self, e: ast.AST, depth: int = 0) -> list[ast.AST]:
+        """the expressions a value may stand for (temporaries expanded)"""
+        return alternatives(e, self.fn)
 
 
-class Run:
-    """one interpreted export call on a fresh model world"""
-
-    def __init__(self, pm, *, target, existing, enc_ok=True, conv_mode="ok", resources=False, fault_at=None, valuation=None):
-        self.pm, self.target, self.existing = pm, target, existing
-        self.enc_ok, self.conv_mode, self.resources, self.fault_at = enc_ok, conv_mode, resources, fault_at
-        self.it = it = Interp(pm)
-        files = {target: OLD} if existing else {}
-        self.fs = fs = FS(it, files, dirs=("/", "/tmp", "/work", "/work/out"))
-        it.externals.update(fs.externals())
-        self.before = fs.snapshot()
-        self.convert_calls, self.converted, self.lib_calls, self.encodes = [], None, [], 0
-        self.converter = Converter(self)
-        it.overrides["LibreOfficeConverter"] = _Lib("LibreOfficeConverter()", lambda *a, **k: self.converter)
-        self.doc = Obj(it.class_val(pm.cls("RTFDocument")), {})
-        self.doc.attrs["rtf_encode"] = _Lib("rtf_encode", self._encode)
-        it.before_call = self._before_call
-        it.valuation = dict(valuation or {})
-
-    def _encode(self, *a, **k):
-        self.encodes += 1
-        if not self.enc_ok:
-            self.it.throw("ValueError", "model rtf_encode failed")
-        return ENCODED
-
-    def _before_call(self, node, f, args, kwargs):
-        if isinstance(f, (Func, Bound, ClassVal, _Lib)):
-            name = f.name if isinstance(f, (Func, ClassVal, _Lib)) else f.func.name
-            self.lib_calls.append(name)
-            if self.fault_at is not None and len(self.lib_calls) == self.fault_at:
-                self.it.throw("RuntimeError", f"fault injected at call #{self.fault_at} ({name})")
-
-    def call(self, short, path_arg, pass_converter):
-        fi = self.pm.func(short)
-        f = Bound(self.it.func_val(fi), self.doc)
-        kw = {"converter": self.converter} if pass_converter else {}
-        return self.it.outcome(lambda: self.it.call(f, [path_arg], kw))
-
-    # ---- observations
-    def target_now(self):
-        return self.fs.files.get(self.target)
-
-    def debris(self):
-        fs = self.fs
-        left = [p for p in fs.temp_created if p in fs.dirs or p in fs.files]
-        left += [p for p in list(fs.files) + list(fs.dirs) if p.startswith("/tmp/") and p not in left and p not in self.before[1]]
-        return sorted(set(left))
-
-    def strays(self, allowed=()):
-        """files created outside /tmp other than the target (and explicitly allowed paths)"""
-        return sorted(p for p in self.fs.files if p not in self.before[0] and p != self.target and not p.startswith("/tmp/")
-                      and not any(p == a or p.startswith(a + "/") for a in allowed))
-
-
-_STATS = {"scenarios": 0, "runs": 0, "forks": 0, "fault_points": {}}
-
-
-def _runs(pm, short, path_kind, pass_converter, **kw):
-    """run one scenario under every valuation of unknown conditions -> [(outcome, Run)]"""
-    out, pending = [], [dict()]
-    while pending:
-        v = pending.pop()
-        r = Run(pm, valuation=v, **kw)
-        arg = r.fs.Path(kw["target"]) if path_kind == "Path" else kw["target"]
-        try:
-            o = r.call(short, arg, pass_converter)
-        except NeedChoice as e:
-            if len(v) > 6:
-                raise Unsupported(f"too many unknown conditions in {short}")
-            pending.extend({**v, e.key: x} for x in e.domain)
+def fs_ops(fl: Flow):
+    """[(call, kind, path expression)] for every file-system modifying operation of the function"""
+    out = []
+    for c in walk_no_nested(fl.fn):
+        if not isinstance(c, ast.Call):
             continue
-        out.append((o, r))
-    _STATS["scenarios"] += 1
-    _STATS["runs"] += len(out)
-    _STATS["forks"] += len(out) - 1
+        d = dotted(c.func)
+        last = d.split(".")[-1]
+        if d in WRITE_FUNCS:
+            i = WRITE_FUNCS[d]
+            out.append((c, d, c.args[i] if len(c.args) > i else (c.args[0] if c.args else None)))
+        elif d == "open" or d in ("io.open", "codecs.open"):
+            m = c.args[1] if len(c.args) > 1 else next((k.value for k in c.keywords if k.arg == "mode"), None)
+            if m is not None and not (isinstance(m, ast.Constant) and isinstance(m.value, str) and not any(ch in m.value for ch in "wax+")):
+                out.append((c, "open:" + (m.value if isinstance(m, ast.Constant) else "?"), c.args[0] if c.args else None))
+        elif isinstance(c.func, ast.Attribute) and last == "open" and not d.startswith(("os.", "io.", "codecs.", "webbrowser.")):
+            m = c.args[0] if c.args else next((k.value for k in c.keywords if k.arg == "mode"), None)
+            if m is not None and not (isinstance(m, ast.Constant) and isinstance(m.value, str) and not any(ch in m.value for ch in "wax+")):
+                out.append((c, ".open:" + (m.value if isinstance(m, ast.Constant) else "?"), c.func.value))
+        elif isinstance(c.func, ast.Attribute) and last in WRITE_ATTRS and not d.startswith(("shutil.", "os.")):
+            if last == "replace" and not ({"target", "temp", "converted"} & fl.location(c.func.value)):
+                continue                # str.replace
+            out.append((c, last, c.func.value))
+            if last in ("rename", "replace") and c.args:
+                out.append((c, last + "->", c.args[0]))
     return out
 
 
-def _exc_name(o):
-    return o[1].cls.mro_names()[0] if o[0] == "raise" and o[1].cls is not None else ""
+def _node_of(g: CFG, sub: ast.AST):
+    live = g.reachable(g.entry)
+    for nd in g.node_containing(sub):
+        if id(nd) in live:
+            return nd
+    return None
 
 
-def _artefact(ctx, rule, o, label) -> bool:
-    return o[0] == "raise" and is_artefact(o[1])
+def completed_before(g: CFG, e_node, t_node) -> bool:
+    """every path from the entry to t_node leaves e_node through a normal edge (the call in e_node has returned)"""
+    if e_node is None or t_node is None or e_node is t_node:
+        return False
+    seen, st = set(), [g.entry]
+    while st:
+        x = st.pop()
+        if id(x) in seen:
+            continue
+        seen.add(id(x))
+        if x is t_node:
+            return False
+        if x is e_node:
+            st.extend(x.xsucc)          # only the exceptional continuation: the call did not complete
+            continue
+        st.extend(x.succ + x.xsucc)
+    return True
+
+
+def _same_value(fl: Flow, arg: ast.AST, calls: list[ast.Call]) -> bool | None:
+    """is `arg` exactly the result of one of the calls (through single-assignment temporaries)? None: cannot tell"""
+    alts = fl.value_origin(arg)
+    if not alts:
+        return None
+    res = []
+    for a in alts:
+        if isinstance(a, ast.Call) and dotted(a.func) == dotted(calls[0].func) and unparse(a) in {unparse(c) for c in calls}:
+            res.append(True)
+        elif isinstance(a, ast.Name):
+            res.append(None)
+        else:
+            res.append(False)
+    if any(r is False for r in res):
+        return False
+    if all(r is True for r in res):
+        return True
+    return None
 
 
 def r18_1(ctx: Ctx) -> None:
-    pm = interp_pm(ctx.pm)
-    short = "RTFDocument.write_rtf"
-    fi = pm.func(short)
-    for target, existing in (("/work/out/report.rtf", True), ("/work/out/report.rtf", False), ("/work/new/sub/report.rtf", False)):
-        for path_kind in ("str", "Path"):
-            where = f"target {'exists' if existing else 'absent'}{' in a missing directory' if '/new/' in target else ''}, given as {path_kind}"
-            # ---- success
-            for o, r in _runs(pm, short, path_kind, False, target=target, existing=existing):
-                got = r.target_now()
-                ctx.instance("R18.1", fi.where(), f"write_rtf ({where}): {o[0]} {_exc_name(o)}; target holds rtf_encode()'s string: {got == ENCODED}; "
-                             f"rtf_encode called {r.encodes}x; library calls {r.lib_calls}")
-                if o[0] == "raise":
-                    if _artefact(ctx, "R18.1", o, where):
-                        ctx.gap("R18.1", f"write_rtf ({where}): interpretation ended with {o[1]!r}")
-                    elif "/new/" in target and _exc_name(o) in ("FileNotFoundError", "OSError", "NotADirectoryError"):
-                        ctx.violation("R18.1", short, "no mkdir(parents=True)", fi.where(), f"write_rtf no longer creates missing parent directories ({o[1]!r})")
+    pm = ctx.pm
+    fi = pm.func("RTFDocument.write_rtf")
+    fl = Flow(pm, fi)
+    g = CFG(fi.node)
+    if not fl.encode_calls:
+        ctx.gap("R18.1", "no rtf_encode() call was re-identified in write_rtf")
+        return
+    enc_nodes = [_node_of(g, c) for c in fl.encode_calls]
+    n_target = 0
+    mk = []
+    for c in walk_no_nested(fi.node):
+        if isinstance(c, ast.Call) and isinstance(c.func, ast.Attribute) and c.func.attr in ("mkdir", "makedirs") or (isinstance(c, ast.Call) and dotted(c.func) == "os.makedirs"):
+            parents = dotted(c.func) == "os.makedirs" or any(k.arg == "parents" and isinstance(k.value, ast.Constant) and k.value.value is True for k in c.keywords) \
+                or (c.args and isinstance(c.args[0], ast.Constant) and c.args[0].value is True and dotted(c.func) != "os.makedirs" and len(c.args) > 1)
+            mk.append((c, parents))
+    for c, kind, pexpr in fs_ops(fl):
+        loc = fl.location(pexpr) if pexpr is not None else {"unknown"}
+        nd = _node_of(g, c)
+        if "target" not in loc:
+            ctx.instance("R18.1", fi.where(c), f"write_rtf: {kind} on `{unparse(pexpr)[:50]}` (location {sorted(loc)}): not the target")
+            if loc <= {"unknown"}:
+                ctx.gap("R18.1", f"write_rtf: the location of `{unparse(pexpr)[:60]}` ({kind}) could not be derived")
+            continue
+        n_target += 1
+        ok = any(completed_before(g, en, nd) for en in enc_nodes if en is not None)
+        ctx.instance("R18.1", fi.where(c), f"write_rtf: {kind} on target `{unparse(pexpr)[:50]}` preceded on every path by the completed rtf_encode(): {ok}")
+        if not ok:
+            ctx.violation("R18.1", fi.short, "target touched before encode", fi.where(c),
+                          f"write_rtf touches the target (`{unparse(c)[:60]}`) on a path on which rtf_encode() has not completed: a failing encode leaves a truncated/empty target")
+        # written value
+        val = None
+        if kind in ("write_text", "write_bytes") and c.args:
+            val = c.args[0]
+        elif kind.startswith(("open:", ".open:")):
+            # the handle's write calls
+            p = getattr(c, "_parent", None)
+            hv = p.optional_vars.id if isinstance(p, ast.withitem) and isinstance(p.optional_vars, ast.Name) else None
+            if hv is None and isinstance(p, ast.Assign) and isinstance(p.targets[0], ast.Name):
+                hv = p.targets[0].id
+            for w in walk_no_nested(fi.node):
+                if isinstance(w, ast.Call) and isinstance(w.func, ast.Attribute) and w.func.attr in ("write", "writelines") and isinstance(w.func.value, ast.Name) and w.func.value.id == hv and w.args:
+                    val = w.args[0]
+        if val is not None:
+            same = _same_value(fl, val, fl.encode_calls)
+            ctx.instance("R18.1", fi.where(c), f"write_rtf: written value `{unparse(val)[:50]}` is rtf_encode()'s result itself: {same}")
+            if same is False:
+                ctx.violation("R18.1", fi.short, "written value " + unparse(val)[:60], fi.where(c), f"write_rtf writes `{unparse(val)[:80]}` instead of exactly the string rtf_encode() returned")
+            elif same is None:
+                ctx.gap("R18.1", f"write_rtf: the written value `{unparse(val)[:60]}` could not be traced to rtf_encode()")
+        # parent directories
+        if kind in ("write_text", "write_bytes") or kind.startswith(("open:", ".open:")):
+            okm = any(par and (mn := _node_of(g, m)) is not None and completed_before(g, mn, nd) for m, par in mk)
+            ctx.instance("R18.1", fi.where(c), f"write_rtf: missing parent directories are created (mkdir(parents=True)) before the write: {okm}")
+            if not okm:
+                ctx.violation("R18.1", fi.short, "no mkdir(parents=True)", fi.where(c), "write_rtf writes the target without having created missing parent directories")
+    if n_target == 0:
+        ctx.gap("R18.1", "no operation on the target path was re-identified in write_rtf")
+    ctx.floor("R18.1", 3)
+
+
+def _cm_helper_ok(pm, fi) -> tuple[bool, str]:
+    """a @contextmanager generator of the package: every yield is protected by try/finally with a clean-up, or lies in a with-block of an auto-cleaning resource"""
+    ys = [n for n in walk_no_nested(fi.node) if isinstance(n, (ast.Yield, ast.YieldFrom))]
+    if not ys:
+        return False, "no yield"
+    acquires = [c for c in walk_no_nested(fi.node) if isinstance(c, ast.Call) and dotted(c.func).split(".")[-1] in TEMP_CTORS]
+    if not acquires:
+        return True, "acquires no temporary resource"
+    for y in ys:
+        ok = False
+        p, child = getattr(y, "_parent", None), y
+        while p is not None and p is not fi.node:
+            if isinstance(p, ast.Try) and p.finalbody and any(x is y for s in p.body for x in ast.walk(s)):
+                if any(isinstance(c, ast.Call) and dotted(c.func).split(".")[-1] in CLEANERS for s in p.finalbody for c in ast.walk(s)):
+                    ok = True
+            if isinstance(p, (ast.With, ast.AsyncWith)) and any(isinstance(i.context_expr, ast.Call) and dotted(i.context_expr.func).split(".")[-1] in AUTO_CLEAN for i in p.items):
+                ok = True
+            p = getattr(p, "_parent", None)
+        if not ok:
+            return False, "its yield is not protected by try/finally clean-up (an exception in the with-body skips the clean-up)"
+    return True, "clean-up in finally / with"
+
+
+def r18_2(ctx: Ctx, fi, fl: Flow, g: CFG) -> None:
+    pm = ctx.pm
+    short = fi.short
+    n = 0
+    for c in walk_no_nested(fi.node):
+        if not isinstance(c, ast.Call):
+            continue
+        last = dotted(c.func).split(".")[-1]
+        p = getattr(c, "_parent", None)
+        if last in TEMP_CTORS:
+            n += 1
+            how = None
+            if isinstance(p, ast.withitem) and last in AUTO_CLEAN:
+                how = "with-item"
+            elif isinstance(p, ast.Call) and dotted(p.func).split(".")[-1] in ("enter_context", "push", "callback") and last in AUTO_CLEAN:
+                stack = p.func.value if isinstance(p.func, ast.Attribute) else None
+                sname = stack.id if isinstance(stack, ast.Name) else None
+                if sname and sname in fl.withvars and dotted(fl.withvars[sname].func if isinstance(fl.withvars[sname], ast.Call) else fl.withvars[sname]).split(".")[-1] in ("ExitStack", "AsyncExitStack"):
+                    how = "enter_context of an ExitStack used as with-item"
+            if how is None:
+                # explicit clean-up must lie on every path from the acquisition to the exits
+                var = None
+                st = p
+                while st is not None and not isinstance(st, ast.stmt):
+                    st = getattr(st, "_parent", None)
+                if isinstance(st, ast.Assign):
+                    t = st.targets[0]
+                    var = t.id if isinstance(t, ast.Name) else (t.elts[-1].id if isinstance(t, ast.Tuple) and isinstance(t.elts[-1], ast.Name) else None)
+                elif isinstance(p, ast.withitem) and isinstance(p.optional_vars, ast.Name):
+                    var = p.optional_vars.id
+                a_node = _node_of(g, c)
+                cleaners = []
+                for c2 in walk_no_nested(fi.node):
+                    if isinstance(c2, ast.Call) and dotted(c2.func).split(".")[-1] in CLEANERS:
+                        tgt = c2.args[0] if c2.args and dotted(c2.func).split(".")[0] in ("shutil", "os") else (c2.func.value if isinstance(c2.func, ast.Attribute) else None)
+                        if tgt is not None and var and any(isinstance(x, ast.Name) and (x.id == var or var in _roots(fl, x.id)) for x in ast.walk(tgt)):
+                            nd2 = _node_of(g, c2)
+                            if nd2 is not None:
+                                cleaners.append(nd2)
+                            # copies of the finally block
+                            cleaners.extend(nd for nd in g.node_containing(c2) if nd is not nd2)
+                ok = False
+                if a_node is not None and cleaners:
+                    ok = all(g.must_pass(s, cleaners, [g.exit, g.xexit]) for s in a_node.succ)
+                how = "explicit clean-up on every exit" if ok else None
+                if not ok:
+                    ctx.instance("R18.2", fi.where(c), f"{short}: `{unparse(c)[:50]}` -> NOT released on every exit ({len(cleaners)} clean-up site(s) found, none on all paths)")
+                    ctx.violation("R18.2", short, dotted(c.func), fi.where(c),
+                                  f"{short}: the temporary resource from `{unparse(c)[:50]}` is not removed when a later step raises "
+                                  + ("(its clean-up is not on the exceptional paths)" if cleaners else "(no context manager, no clean-up)"))
+                    continue
+            ctx.instance("R18.2", fi.where(c), f"{short}: `{unparse(c)[:50]}` released by {how}")
+        elif isinstance(p, ast.withitem):
+            # a context-manager helper of the package
+            r = pm.resolve(fi.module, dotted(c.func)) if isinstance(c.func, ast.Name) else None
+            cand = r[1] if r and r[0] == "func" else (pm.find_method(fi.cls, c.func.attr) if isinstance(c.func, ast.Attribute) and isinstance(c.func.value, ast.Name) and c.func.value.id == "self" and fi.cls else None)
+            if cand is not None and any(x.endswith("contextmanager") for x in cand.decorators):
+                n += 1
+                ok, why = _cm_helper_ok(pm, cand)
+                ctx.instance("R18.2", fi.where(c), f"{short}: with {cand.short}() -> {why}")
+                if not ok:
+                    ctx.violation("R18.2", short, f"with {cand.short}", fi.where(c), f"{short}: the temporary resource of `{cand.short}()` is not removed when the body raises: {why}")
+    if n == 0:
+        ctx.gap("R18.2", f"{short}: no temporary resource was re-identified")
+
+
+def _roots(fl: Flow, name: str, depth: int = 0) -> set[str]:
+    out = set()
+    if depth > 6:
+        return out
+    for v in fl.values(name, frozenset()):
+        for x in ast.walk(v):
+            if isinstance(x, ast.Name) and x.id != name:
+                out.add(x.id)
+                out |= _roots(fl, x.id, depth + 1)
+    return out
+
+
+def r18_3(ctx: Ctx, fi, fl: Flow, g: CFG, fmt: str) -> None:
+    pm = ctx.pm
+    short = fi.short
+    if not fl.convert_calls:
+        ctx.gap("R18.3", f"{short}: no converter.convert(...) call was re-identified")
+        return
+    if not fl.encode_calls:
+        ctx.gap("R18.3", f"{short}: no rtf_encode() call was re-identified")
+        return
+    conv = fl.convert_calls[0]
+    conv_node = _node_of(g, conv)
+    enc_nodes = [_node_of(g, c) for c in fl.encode_calls]
+    # the test of the converter result's type: an `if` whose condition applies isinstance to the result and whose failing branch raises
+    conv_names = set()
+    p = getattr(conv, "_parent", None)
+    if isinstance(p, ast.Assign):
+        conv_names |= {t.id for t in p.targets if isinstance(t, ast.Name)}
+    checks = []
+    for n in walk_no_nested(fi.node):
+        if isinstance(n, ast.If) and any(isinstance(c, ast.Call) and dotted(c.func) == "isinstance" and c.args and "converted" in fl.location(c.args[0]) for c in ast.walk(n.test)):
+            if any(isinstance(s, ast.Raise) for s in ast.walk(n)):
+                checks.append(n)
+    check_nodes = [nd for n in checks for nd in g.nodes if nd.kind == "test" and nd.ast is n]
+    ctx.instance("R18.3", fi.where(conv), f"{short}: convert call `{unparse(conv)[:60]}`; result type test(s): {[unparse(c.test)[:40] for c in checks]}")
+    # ---- arguments of the converter
+    kw = {k.arg: k.value for k in conv.keywords if k.arg}
+    src = kw.get("input_files", conv.args[0] if conv.args else None)
+    odir = kw.get("output_dir", conv.args[1] if len(conv.args) > 1 else None)
+    for label, e in (("input file", src), ("output directory", odir)):
+        if e is None:
+            ctx.gap("R18.3", f"{short}: the converter's {label} argument was not re-identified")
+            continue
+        loc = fl.location(e)
+        ctx.instance("R18.3", fi.where(conv), f"{short}: converter {label} `{unparse(e)[:50]}` lies in {sorted(loc)}")
+        if "temp" in loc and not (loc & {"target", "const"}):
+            continue
+        if loc & {"target", "const"}:
+            ctx.violation("R18.3", short, f"converter {label} outside temp dir: {unparse(e)[:50]}", fi.where(conv),
+                          f"{short}: the converter's {label} `{unparse(e)[:60]}` lies {'next to the requested target' if 'target' in loc else 'at a fixed path'}, not in a temporary directory: "
+                          "a failed export leaves it behind")
+        else:
+            ctx.gap("R18.3", f"{short}: the location of the converter's {label} `{unparse(e)[:60]}` could not be derived")
+    # ---- file-system operations
+    n_target = 0
+    for c, kind, pexpr in fs_ops(fl):
+        loc = fl.location(pexpr) if pexpr is not None else {"unknown"}
+        nd = _node_of(g, c)
+        is_src_arg = kind in ("shutil.move", "os.rename", "os.replace") and False
+        if "target" in loc and "temp" not in loc:
+            n_target += 1
+            e_ok = any(completed_before(g, en, nd) for en in enc_nodes if en is not None)
+            c_ok = completed_before(g, conv_node, nd)
+            t_ok = all(_dominated_by_test(g, tn, nd) for tn in check_nodes) if check_nodes else None
+            ctx.instance("R18.3", fi.where(c), f"{short}: {kind} -> target `{unparse(pexpr)[:40]}` after completed encode: {e_ok}, after completed convert: {c_ok}, after the result type test: {t_ok}")
+            if not e_ok or not c_ok:
+                ctx.violation("R18.3", short, f"{kind} on target before " + ("encode" if not e_ok else "convert"), fi.where(c),
+                              f"{short}: the target is touched by `{unparse(c)[:60]}` on a path on which {'rtf_encode()' if not e_ok else 'converter.convert()'} has not completed: "
+                              "a failing export modifies / creates the target")
+            elif t_ok is False:
+                ctx.violation("R18.3", short, f"{kind} on target before the result type test", fi.where(c),
+                              f"{short}: `{unparse(c)[:60]}` runs before the converter's result has been checked to be a Path: a malformed result is moved to / destroys the target")
+            # what reaches the target derives from the converter's result
+            if kind in WRITE_FUNCS and WRITE_FUNCS[kind] == 1 and c.args:
+                sl = fl.location(c.args[0])
+                ctx.instance("R18.3", fi.where(c), f"{short}: source of {kind} `{unparse(c.args[0])[:40]}` derives from {sorted(sl)}")
+                if "converted" not in sl:
+                    if sl <= {"unknown"}:
+                        ctx.gap("R18.3", f"{short}: the source `{unparse(c.args[0])[:50]}` moved to the target could not be traced")
                     else:
-                        ctx.violation("R18.1", short, f"raises {_exc_name(o)}", fi.where(), f"write_rtf raises {o[1]!r} although encoding succeeds ({where})")
-                    continue
-                if got is None:
-                    ctx.violation("R18.1", short, "no target write", fi.where(), f"write_rtf no longer writes the target path ({where})")
-                elif got != ENCODED:
-                    ctx.violation("R18.1", short, "written value differs", fi.where(),
-                                  f"write_rtf stores {got[:60]!r} instead of exactly the string rtf_encode() returned ({where})")
-                if r.strays() or r.debris():
-                    ctx.violation("R18.1", short, "other files written", fi.where(), f"write_rtf leaves other files behind: {(r.strays() + r.debris())[:3]} ({where})")
-                n_calls = len(r.lib_calls)
-            # ---- encode fails / a fault at every call boundary
-            _STATS["fault_points"][f"write_rtf ({where})"] = n_calls
-            variants = [("rtf_encode raises", dict(enc_ok=False))] + [(f"fault at call #{k}", dict(fault_at=k)) for k in range(1, n_calls + 1)]
-            for vlabel, kw in variants:
-                for o, r in _runs(pm, short, path_kind, False, target=target, existing=existing, **kw):
-                    got, want = r.target_now(), (OLD if existing else None)
-                    ctx.instance("R18.1", fi.where(), f"write_rtf ({where}; {vlabel}): {o[0]} {_exc_name(o)}; target afterwards "
-                                 f"{'unchanged' if got == want else ('absent' if got is None else repr(got[:30]))}")
-                    if o[0] != "raise":
-                        ctx.violation("R18.1", short, "failure swallowed", fi.where(), f"write_rtf returns normally although {vlabel} ({where})")
-                    if got != want:
-                        ctx.violation("R18.1", short, "target touched before encode", fi.where(),
-                                      f"write_rtf ({where}; {vlabel}): the target is {'created' if want is None else 'modified'} "
-                                      f"({'empty' if got == '' else repr((got or '')[:40])}) although the call fails; "
-                                      "the target must only be written once rtf_encode() has succeeded")
-                    if r.strays() or r.debris():
-                        ctx.violation("R18.1", short, "files left after failure", fi.where(), f"write_rtf ({where}; {vlabel}) leaves {(r.strays() + r.debris())[:3]} behind")
-    ctx.floor("R18.1", 6)
+                        ctx.violation("R18.3", short, "source of the final move " + unparse(c.args[0])[:50], fi.where(c), f"{short}: what is moved to the target (`{unparse(c.args[0])[:60]}`) is not the converter's output")
+        elif "temp" in loc or "converted" in loc:
+            ctx.instance("R18.3", fi.where(c), f"{short}: {kind} -> `{unparse(pexpr)[:40]}` inside {sorted(loc & {'temp', 'converted'})}")
+            if kind in ("write_text", "write_bytes") and c.args:
+                same = _same_value(fl, c.args[0], fl.encode_calls)
+                ctx.instance("R18.3", fi.where(c), f"{short}: intermediate file content `{unparse(c.args[0])[:40]}` is rtf_encode()'s result itself: {same}")
+                if same is False:
+                    ctx.violation("R18.3", short, "intermediate RTF " + unparse(c.args[0])[:50], fi.where(c), f"{short}: the intermediate RTF file holds `{unparse(c.args[0])[:60]}`, not exactly rtf_encode()'s result")
+        elif "const" in loc:
+            ctx.violation("R18.3", short, f"{kind} outside temp dir: {unparse(pexpr)[:50]}", fi.where(c), f"{short}: `{unparse(c)[:70]}` writes to a fixed path outside the temporary directories")
+        else:
+            ctx.gap("R18.3", f"{short}: the location of `{unparse(pexpr)[:60]}` ({kind}) could not be derived")
+    if n_target == 0:
+        ctx.violation("R18.3", short, "no operation on the target", fi.where(), f"{short}: the converter output never reaches the requested path (no move/copy/write to the target was found after the conversion)") \
+            if False else ctx.gap("R18.3", f"{short}: no operation that brings the converter's output to the requested path was re-identified")
+    # ---- R18.4 format
+    f = kw.get("format")
+    vals = []
+    if f is not None:
+        for a in fl.value_origin(f):
+            vals.append(a.value if isinstance(a, ast.Constant) else None)
+    ctx.instance("R18.4", fi.where(conv), f"{short}: convert(format={vals})")
+    if f is None or any(v is None for v in vals) or not vals:
+        ctx.gap("R18.4", f"{short}: the format handed to the converter is not a constant of the source")
+    elif set(vals) != {fmt}:
+        ctx.violation("R18.4", short, f"format {vals}", fi.where(conv), f"{short} converts to {vals}, expected '{fmt}'")
 
 
-def r18_2_3(ctx: Ctx) -> None:
-    pm = interp_pm(ctx.pm)
-    for short, fmt in WRITERS:
-        fi = pm.func(short)
-        nm = short.split(".")[-1]
-        cases = [("/work/out/report." + fmt, True, "str", False, False), ("/work/new/sub/report." + fmt, False, "Path", True, fmt == "html"),
-                 ("/work/out/report." + fmt, False, "str", True, fmt == "html")]
-        for target, existing, path_kind, pass_conv, resources in cases:
-            where = (f"target {'exists' if existing else 'absent'}{' in a missing directory' if '/new/' in target else ''}, {path_kind}, "
-                     f"{'converter passed' if pass_conv else 'default converter'}{', converter writes a resource folder' if resources else ''}")
-            base = dict(target=target, existing=existing, resources=resources)
-            n_calls = 0
-            # ---- success
-            for o, r in _runs(pm, short, path_kind, pass_conv, **base):
-                got = r.target_now()
-                conv = r.converted
-                n_calls = max(n_calls, len(r.lib_calls))
-                ctx.instance("R18.3", fi.where(), f"{nm} ({where}): {o[0]} {_exc_name(o)}; target holds the converter output: {conv is not None and got == conv[1]}; "
-                             f"library calls {r.lib_calls}")
-                if o[0] == "raise":
-                    if _artefact(ctx, "R18.3", o, where):
-                        ctx.gap("R18.3", f"{nm} ({where}): interpretation ended with {o[1]!r}")
-                    else:
-                        ctx.violation("R18.3", short, f"raises {_exc_name(o)}", fi.where(), f"{nm} raises {o[1]!r} although encoding and conversion succeed ({where})")
-                    continue
-                # R18.4 format
-                fmts = [c["format"] for c in r.convert_calls]
-                ctx.instance("R18.4", fi.where(), f"{nm}: convert(format={fmts})")
-                if not r.convert_calls:
-                    ctx.violation("R18.3", short, "no convert call", fi.where(), f"{nm}: converter.convert is never called ({where})")
-                    continue
-                if fmts != [fmt]:
-                    ctx.violation("R18.4", short, f"format {fmts}", fi.where(), f"{nm} converts to {fmts}, expected ['{fmt}']")
-                for c in r.convert_calls:
-                    if c["input_content"] != ENCODED:
-                        ctx.violation("R18.3", short, "intermediate RTF", fi.where(),
-                                      f"{nm}: the file handed to the converter holds {str(c['input_content'])[:50]!r}, not exactly rtf_encode()'s result")
-                    if not c["input"].startswith("/tmp/") or not c["output_dir"].startswith("/tmp/"):
-                        ctx.violation("R18.3", short, "conversion outside a temporary directory", fi.where(),
-                                      f"{nm}: the converter works on {c['input']} -> {c['output_dir']}, not inside temporary directories")
-                if conv is None or got != conv[1]:
-                    ctx.violation("R18.3", short, "no final move", fi.where(),
-                                  f"{nm} ({where}): after a successful call the requested path holds {('nothing' if got is None else repr(got[:40]))}, not the converter's output")
-                allowed = []
-                if resources and conv is not None:
-                    res_dir = target.rsplit("/", 1)[0] + "/" + conv[0].rsplit("/", 1)[-1] + "_files"
-                    allowed.append(res_dir)
-                    ok_res = f"{res_dir}/image1.png" in r.fs.files
-                    ctx.instance("R18.3", fi.where(), f"{nm}: HTML resource folder moved next to the target ({res_dir}): {ok_res}")
-                    if not ok_res:
-                        ctx.violation("R18.3", short, "resource folder not moved", fi.where(), f"{nm}: the converter's `{conv[0].rsplit('/', 1)[-1]}_files` folder does not end up next to the requested path")
-                _after(ctx, r, short, nm, fi, where, "successful call", allowed)
-            # ---- failures: encode, converter modes, injected faults
-            _STATS["fault_points"][f"{nm} ({where})"] = n_calls
-            variants = [("rtf_encode raises", dict(enc_ok=False))]
-            variants += [(f"converter {m}", dict(conv_mode=m)) for m in ("raise-before", "raise-after", "returns-list", "returns-none", "returns-str")]
-            variants += [(f"fault at call #{k}", dict(fault_at=k)) for k in range(1, n_calls + 1)]
-            for vlabel, kw in variants:
-                for o, r in _runs(pm, short, path_kind, pass_conv, **base, **kw):
-                    got, want = r.target_now(), (OLD if existing else None)
-                    conv = r.converted
-                    ctx.instance("R18.3", fi.where(), f"{nm} ({where}; {vlabel}): {o[0]} {_exc_name(o)}; target afterwards "
-                                 f"{'unchanged' if got == want else ('absent' if got is None else repr(got[:30]))}")
-                    if o[0] == "raise" and _artefact(ctx, "R18.3", o, where):
-                        ctx.gap("R18.3", f"{nm} ({where}; {vlabel}): interpretation ended with {o[1]!r}")
-                        continue
-                    if o[0] != "raise":
-                        if conv is not None and got == conv[1] and vlabel == "converter returns-str":
-                            pass        # a writer that also accepts a str result delivered the output: all-or-nothing holds
-                        else:
-                            ctx.violation("R18.3", short, "failure swallowed: " + vlabel.split(" #")[0], fi.where(),
-                                          f"{nm} returns normally although {vlabel} ({where}); target holds {('nothing' if got is None else repr(got[:30]))}")
-                        _after(ctx, r, short, nm, fi, where, vlabel, [target.rsplit("/", 1)[0]])
-                        continue
-                    if got != want:
-                        ctx.violation("R18.3", short, "target changed although the call fails", fi.where(),
-                                      f"{nm} ({where}; {vlabel}): the call raises {_exc_name(o)} but the target was "
-                                      f"{'created' if want is None else 'replaced'} ({repr((got or '')[:40])}); a failed export must leave the target as it was")
-                    _after(ctx, r, short, nm, fi, where, vlabel, [])
-    ctx.floor("R18.2", 6)
-    ctx.floor("R18.3", 7)
-
-
-def _after(ctx, r, short, nm, fi, where, vlabel, allowed) -> None:
-    """R18.2 / R18.3: what is left on the file system after a run"""
-    deb = r.debris()
-    ctx.instance("R18.2", fi.where(), f"{nm} ({where}; {vlabel}): temporaries created {r.fs.temp_created}, left behind {deb}")
-    if deb:
-        ctx.violation("R18.2", short, "temporary files survive" + ("" if vlabel == "successful call" else " a failure"), fi.where(),
-                      f"{nm} ({where}; {vlabel}): temporary files/directories are not removed: {deb[:3]}")
-    st = r.strays(allowed)
-    if st:
-        ctx.violation("R18.3", short, "files outside temporary directories", fi.where(),
-                      f"{nm} ({where}; {vlabel}): files other than the target are left outside temporary directories: {st[:3]}")
+def _dominated_by_test(g: CFG, test_node, nd) -> bool:
+    """every path to nd passes the test node (and therefore its raise-guard)"""
+    if test_node is None or nd is None:
+        return False
+    r = g.reachable(g.entry, blocked=[test_node])
+    return id(nd) not in r
 
 
 def check(ctx: Ctx) -> None:
+    pm = ctx.pm
     ctx.explain(
-        "The writers' syntax trees are interpreted over an in-memory file system with a model document and a model converter; "
-        "besides failing encode / convert (before output, after output, non-path results) an exception is injected at every call "
-        "boundary of repository code, one run each. R18.1 write_rtf: return => target == rtf_encode() string, raise => target as "
-        "before. R18.2 nothing created through tempfile survives any run. R18.3 converters: return => target == converter output "
-        "(+ HTML resource folder), the converter was given exactly the encoded string inside temporary directories, no other file "
-        "left; raise => target as before, nothing else left. R18.4 each writer requests its own format.")
-    ctx.explain("Method: " + METHOD + ". Fault injection is exhaustive over the call boundaries of repository code (repository functions, "
-                "classes and their models rtf_encode / LibreOfficeConverter() / converter.convert) that the fault-free run of the same scenario "
-                "reaches: one run per boundary, the exception is raised on entry instead of the call. Scenarios: 3 target situations (exists / "
-                "absent / absent in a missing directory) x str or Path argument x default or passed converter; converter behaviours: succeeds, "
-                "raises before output, raises after output, returns a list, None, a str (counts in coverage.interpretation).")
-    ctx.assume("shutil.move is atomic enough for the property (same file system) and TemporaryDirectory removes its tree on exit")
-    ctx.assume("the document is a model whose rtf_encode returns a fixed string or raises; the converter is a model that writes `<stem>.<format>` "
-               "(and for HTML a `<name>_files` folder) into the output directory it is given; the file system is an in-memory model")
-    ctx.undecided("atomicity of shutil.move across file systems; LibreOffice's own temporary files")
-    ctx.undecided("failures inside standard-library calls (shutil.move, Path.write_text, mkdir) are not injected; call boundaries that are only "
-                  "reached on error paths; concurrent writers")
-    for k in ("scenarios", "runs", "forks"):
-        _STATS[k] = 0
-    _STATS["fault_points"] = {}
+        "Structural rules on the control-flow graph (with exceptional edges) of each writer, with dataflow of path locations. R18.1 write_rtf: every operation on the target "
+        "location is preceded on every path by the completed rtf_encode() call, the written value is that result, parents are created. R18.2 every temporary resource is a "
+        "with-item / enter_context of an ExitStack in a with / followed by clean-up on every exit path; package context-manager helpers protect their yield. R18.3 converters: "
+        "every operation on the target location is preceded by completed encode, completed convert and the result type test; the moved source derives from the converter's "
+        "result; converter input and output directory lie in temporary directories; nothing is written to fixed paths. R18.4 format constant per writer.")
+    ctx.assume("shutil.move is atomic enough for the property (same file system); TemporaryDirectory / NamedTemporaryFile remove their resource when used as context managers; "
+               "contextlib.ExitStack unwinds on every exit of its with-block")
+    ctx.assume("'completed before' = on the control-flow graph every path from the entry to the operation leaves the call's node through a normal (non-exceptional) edge")
+    ctx.undecided("atomicity of shutil.move across file systems; LibreOffice's own temporary files; failures inside shutil.move itself")
     r18_1(ctx)
-    r18_2_3(ctx)
-    cover(ctx, scenarios=_STATS["scenarios"], interpreted_runs=_STATS["runs"], forks_on_unknown_conditions=_STATS["forks"],
-          fault_points_per_scenario=dict(_STATS["fault_points"]), fault_injection="exhaustive over the repository call boundaries reached in the "
-          "fault-free run of each scenario (exception on entry)", converter_behaviours=["ok", "raise-before", "raise-after", "returns-list", "returns-none", "returns-str"],
-          fork_enumeration="all valuations of the unknown conditions consulted (at most 2^7 per scenario, else analysis gap)")
+    for short, fmt in CONVERTERS:
+        fi = pm.func(short)
+        fl = Flow(pm, fi)
+        g = CFG(fi.node)
+        r18_2(ctx, fi, fl, g)
+        r18_3(ctx, fi, fl, g, fmt)
+    ctx.floor("R18.2", 3)
+    ctx.floor("R18.3", 9)
+    ctx.floor("R18.4", 3)
